@@ -440,6 +440,8 @@ class SpecEnv(object):
             # T-UTF8: the (surrogatepass) UTF-8 coding is total and injective; the strict codec accepts
             # exactly the encodings of text without lone surrogates
             self.fact(z3.And(unutf8(t) == zseq(s), utf8_valid(t), utf8_strict_valid(t) == utf8_ok(zseq(s))))
+            # ... and every code point takes one to four bytes
+            self.fact(z3.And(z3.Length(t) >= z3.Length(zseq(s)), z3.Length(t) <= 4 * z3.Length(zseq(s))))
             return SBytes(t)
         P["utf8"] = p_utf8
         P["utf8_strict_valid"] = lambda ctx, b: b2v(utf8_strict_valid(zseq(b)))
@@ -452,6 +454,9 @@ class SpecEnv(object):
             t = dec(zint(i))
             self.fact(z3.Length(t) >= 1)
             self.fact(z3.And(undec(t) == zint(i), is_decimal(t)))
+            # small integers can always be rendered, in at most 19 characters (far below the interpreter's digit limit)
+            self.fact(z3.Implies(z3.And(zint(i) > -10 ** 18, zint(i) < 10 ** 18),
+                                 z3.And(self.uf["renderable"](zint(i)), z3.Length(t) <= 19)))
             return SBytes(t)
         P["dec"] = p_dec
         P["undec"] = lambda ctx, b: SInt(undec(zseq(b)))
@@ -544,13 +549,38 @@ class SpecEnv(object):
             return r
         P["netref_idpack"] = p_netref_idpack
         P["id_pack"] = lambda ctx, v: SVal(id_pack(to_val(v)))
+        def seq2(z):
+            """a plain value that unpacks into exactly two items, and those items: a 2-tuple; 2 bytes (two ints); a
+            2-character text (two 1-character texts); a frozenset of two items (in its iteration order)"""
+            l, by, tx, o = Val.titems(z), Val.vby(z), Val.vs(z), order_of(Val.fitems(z))
+            two = lambda c: z3.And(VL.is_cons(c), VL.is_cons(VL.tl(c)), VL.tl(VL.tl(c)) == VL.nil)
+            is2 = z3.Or(z3.And(Val.is_VTuple(z), two(l)), z3.And(Val.is_VBytes(z), z3.Length(by) == 2),
+                        z3.And(Val.is_VStr(z), z3.Length(tx) == 2), z3.And(Val.is_VFset(z), two(o)))
+            pick = lambda k: z3.If(Val.is_VTuple(z), VL.hd(l) if k == 0 else VL.hd(VL.tl(l)),
+                                   z3.If(Val.is_VBytes(z), Val.VInt(by[k]),
+                                         z3.If(Val.is_VStr(z), Val.VStr(z3.Unit(tx[k])), VL.hd(o) if k == 0 else VL.hd(VL.tl(o)))))
+            return is2, pick(0), pick(1)
+        self.seq2 = seq2
+
+        def p_nth_item(ctx, v, k):
+            """the k-th item a plain iterable unpacks into: a tuple's item; a byte of bytes (an int); a character of a
+            text (a 1-character text); an item of a frozenset in its iteration order"""
+            z = to_val(v)
+            l, by, tx, o = Val.titems(z), Val.vby(z), Val.vs(z), order_of(Val.fitems(z))
+            def nth(c):
+                for _ in range(k):
+                    c = VL.tl(c)
+                return VL.hd(c)
+            return SVal(z3.If(Val.is_VTuple(z), nth(l), z3.If(Val.is_VBytes(z), Val.VInt(by[k]),
+                                                              z3.If(Val.is_VStr(z), Val.VStr(z3.Unit(tx[k])), nth(o)))))
+        P["nth_item"] = p_nth_item
+
         def p_label_is(ctx, pkg, label):
-            z = to_val(pkg)
-            l = Val.titems(z)
-            shape = z3.And(Val.is_VTuple(z), VL.is_cons(l), VL.is_cons(VL.tl(l)), VL.tl(VL.tl(l)) == VL.nil)
-            return b2v(z3.And(shape, ops._z(ops.eq(SVal(VL.hd(l)), label))))
+            is2, first, second = seq2(to_val(pkg))
+            return b2v(z3.And(is2, ops._z(ops.eq(SVal(first), label))))
         P["label_is"] = p_label_is
-        P["payload"] = lambda ctx, pkg: SVal(VL.hd(VL.tl(Val.titems(to_val(pkg)))))
+        P["payload"] = lambda ctx, pkg: SVal(seq2(to_val(pkg))[2])
+        P["is_pair"] = lambda ctx, pkg: b2v(seq2(to_val(pkg))[0])
 
         def p_iter_source(ctx, v):
             """the items a `for` over the plain value v visits: a tuple's items (a frozenset's in its iteration order)"""
@@ -576,6 +606,18 @@ class SpecEnv(object):
             arr = ctx.st.heap[("$netref", "refcount")] if ("$netref", "refcount") in ctx.st.heap else ctx.engine.netref_refcounts0()
             return SInt(z3.Select(arr.z, to_val(v)))
         P["refcount"] = p_refcount
+
+        def p_counts_unchanged_except(ctx, v):
+            """the reference count of every proxy other than v is what it was at function entry"""
+            k = ("$netref", "refcount")
+            now = ctx.st.heap[k] if k in ctx.st.heap else ctx.engine.netref_refcounts0()
+            was = ctx.pre.heap[k] if k in ctx.pre.heap else ctx.engine.netref_refcounts0()
+            if now is was:
+                return True
+            q = z3.Const("q!rc", Val)
+            return b2v(z3.ForAll([q], z3.Implies(q != to_val(v), z3.Select(now.z, q) == z3.Select(was.z, q)),
+                                 patterns=[z3.Select(now.z, q)]))
+        P["counts_unchanged_except"] = p_counts_unchanged_except
         P["decoded"] = lambda ctx, b: SVal(decoded(zseq(b) if not isinstance(b, SVal) else Val.vby(b.z)))
 
         def p_is_netref(ctx, v):
